@@ -977,7 +977,47 @@ class Executor:
     def e_BinOp(self, node, st):
         a = self.ev(node.left, st)
         b = self.ev(node.right, st)
-        return self.binop(st, node.op, a, b, node)
+        r = self.binop(st, node.op, a, b, node)
+        if isinstance(node.op, ast.Mult) and self.contract.options.get('check_int_products') and self.cur_fn.srcfile.is_cython and is_int(r):
+            # C evaluates a product in the type of its (converted) operands, not in the type of the variable it is stored to: a product of
+            # two 32-bit operands wraps at 2^32 before the store.  (Opt-in per contract; everywhere else C integers are mathematical.)
+            t = self.c_int_type(node, st)
+            if t is not None and t[0] <= 32:
+                lo, hi = (-(1 << (t[0] - 1)), (1 << (t[0] - 1)) - 1) if t[1] else (0, (1 << t[0]) - 1)
+                self.oblige(st, 'safe:int-product', node, z3.And(to_z3(r) >= lo, to_z3(r) <= hi) if is_z3(r) else lo <= r <= hi,
+                            'product of %d-bit %s operands does not wrap' % (t[0], 'signed' if t[1] else 'unsigned'))
+        return r
+
+    def c_int_type(self, node, st):
+        """(bits, signed) of a C integer expression by the usual arithmetic conversions, or None if not (known to be) one"""
+        if isinstance(node, ast.Constant) and isinstance(node.value, int) and not isinstance(node.value, bool):
+            return (32, True)
+        if isinstance(node, ast.Name):
+            ct = st.ctypes.get((self.cur_fn, node.id))
+            return (ct.bits, ct.signed) if ct is not None and ct.kind == 'int' else None
+        if isinstance(node, ast.Call) and isinstance(node.func, ast.Name) and node.func.id == '__cast__':
+            ct = getattr(node, 'ctype', None)
+            return (ct.bits, ct.signed) if ct is not None and ct.kind == 'int' else None
+        if isinstance(node, ast.Subscript):
+            try:
+                base = self.ev(node.value, st)
+            except OutOfSubset:
+                return None
+            ref = base.ref if isinstance(base, VPtr) else base
+            c = st.heap.get(ref.id) if isinstance(ref, Ref) else None
+            ect = getattr(c, 'elem_ctype', None)
+            return (ect.bits, ect.signed) if ect is not None and ect.kind == 'int' else None
+        if isinstance(node, ast.BinOp) and isinstance(node.op, (ast.Add, ast.Sub, ast.Mult)):
+            ta, tb = self.c_int_type(node.left, st), self.c_int_type(node.right, st)
+            if ta is None or tb is None:
+                return None
+            ta, tb = (max(ta[0], 32), ta[1]), (max(tb[0], 32), tb[1])      # integer promotion
+            if ta[0] != tb[0]:
+                return ta if ta[0] > tb[0] else tb
+            return (ta[0], ta[1] and tb[1])                                   # same width: unsigned wins
+        if isinstance(node, ast.UnaryOp) and isinstance(node.op, (ast.USub, ast.UAdd)):
+            return self.c_int_type(node.operand, st)
+        return None
 
     def e_BoolOp(self, node, st):
         # short-circuit: obligations in later operands are guarded by the earlier ones
